@@ -28,7 +28,8 @@ EXPLANATION = (
     "the same element. (R20.3) write_to_net stores the attribute that the same arm (el_power_led or not) of control_step "
     "assigned, into the column the opposite side reads. (R20.4) _evaluate_multinet aggregates the member verdicts with "
     "np.all, re-evaluates only nets selected by _relevant_nets and keeps the previous entry for the others. (R20.5) the "
-    "top-level error tuple covers the pandapipes members' non-convergence class. (R20.6) get_all_net_names of every coupling controller returns exactly the member nets its control step reads or writes, so that _relevant_nets recalculates every net that was written. Not decided: that member nets hold the "
+    "top-level error tuple covers the pandapipes members' non-convergence class. (R20.7) the controller tables of the multinet and of its members are combined by column label before they are ordered. "
+    "(R20.6) get_all_net_names of every coupling controller returns exactly the member nets its control step reads or writes, so that _relevant_nets recalculates every net that was written. Not decided: that member nets hold the "
     "results of a stand-alone calculation (runtime).")
 ASSUMPTIONS = ["pandas .at / .loc address the same cell for a scalar index", "the higher heating value property is positive"]
 TECHNIQUE = "normal forms of the conversion factors and control-step formulas; structural agreement of sibling arms"
@@ -379,4 +380,34 @@ def r20_6(run):
     run.floor(4)
 
 
-RULES = [("R20.1", r20_1), ("R20.2", r20_2), ("R20.3", r20_3), ("R20.4", r20_4), ("R20.5", r20_5), ("R20.6", r20_6)]
+def r20_7(run):
+    """controller placement: the controllers of the multinet and of its member nets are ordered together; their tables are
+    combined by column label.  Stacking the raw `.values` of several tables under the column labels of one of them assumes that
+    all tables have the same columns -- a member table with an extra column (pandapower's controllers add one) then makes every
+    multinet without a multinet-level controller fail"""
+    from ..arrnf import ANF, contains, show as tshow, walk
+    ix = run.index
+    f = ix.func(MRC + ".get_controller_order_multinet")
+    run.analysed(f)
+    r = ANF(ix, f).run()
+    rets = [e for e in r.returns() if e.value[0] == "call"]
+    stacked = []
+    for e in r.events:
+        t = e.term if e.kind == "call" else getattr(e, "value", None)
+        if t is None:
+            continue
+        for x in walk(t):
+            if x[0] == "call" and x[1] == ("x", "pandas.DataFrame") and x[2] and any(
+                    y[0] == "call" and y[1] in (("x", "numpy.concatenate"), ("x", "numpy.vstack")) for y in walk(x[2][0])) \
+                    and dict(x[3]).get("columns") is not None:
+                stacked.append(x)
+    run.ob("controller-order|tables-combined-by-label", not stacked,
+           "the controller tables of the multinet and its members are combined by column label (pd.concat of the tables), not by "
+           "stacking their values under the columns of one table", run.where(f, f.node),
+           detail=tshow(stacked[0])[:200] if stacked else None)
+    used = any(c.fn[0] == "x" and c.fn[1].endswith("get_controller_order") for c in r.calls())
+    run.ob("controller-order|delegates-to-pandapower", used, "the combined table is ordered by pandapower's get_controller_order", run.where(f, f.node))
+    run.floor(2)
+
+
+RULES = [("R20.1", r20_1), ("R20.2", r20_2), ("R20.3", r20_3), ("R20.4", r20_4), ("R20.5", r20_5), ("R20.6", r20_6), ("R20.7", r20_7)]
